@@ -6,6 +6,7 @@
 (*   rec : {e, k, v, panic}                      RecordValue/RecordDuration*)
 (*   rep : {e, out}                              one report pass; out =    *)
 (*         the (lower, upper, samples) tuples that reached the reporter    *)
+(*   shared : {e, bounds_ok, counts_ok}  concurrent creators, one spec      *)
 (* All bounds / samples are tokens of the Histogram module (the harness    *)
 (* maps concrete float64 / int64 values back through its table).           *)
 (* The trace never gets stuck: a mismatch prints a FAIL line naming the    *)
@@ -72,8 +73,15 @@ TRep(r) ==
   /\ Report
   /\ nanPending' = 0
 
+(* one unsorted specification shared by several roots that create their histograms at the same time: every
+   histogram's bounds are the sorted specification, the caller's slice is as it was *)
+TShared(r) ==
+  /\ r.e = "shared" /\ UNCHANGED <<vars, nanPending>>
+  /\ IF ~r.bounds_ok THEN Fail("Tiling:specification-shared-by-concurrent-creators")
+     ELSE IF ~r.counts_ok THEN Fail("SampleLostOrWrongBucket:specification-shared-by-concurrent-creators") ELSE TRUE
+
 TNext == /\ l <= Len(TraceLog)
-         /\ LET r == TraceLog[l] IN TNew(r) \/ TRec(r) \/ TRep(r)
+         /\ LET r == TraceLog[l] IN TNew(r) \/ TRec(r) \/ TRep(r) \/ TShared(r)
          /\ l' = l + 1
 
 TraceSpec == TInit /\ [][TNext]_tvars
